@@ -20,7 +20,7 @@ TECHNIQUE = "Coq proof (per-layer algebraic identities, lra/nra) + bit-exact ker
 
 ORACLE_KEYS = ("uptake-credit", "uptake-credited-in-later-substep", "mineral-bookkeeping", "organic-pool-negative",
                "dissolved-exceeds-applied", "c1-negative", "state-not-finite", "fixation-credit",
-               "tillage-mixing-not-conservative", "tillage-run-error", "booked-in-later-substep", "applied-fertiliser-decreases", "prognosis-dressing-removes-n", "crop-n-negative", "resprouting-creates-n", "harvest-run-error", "harvest-pool-not-finite-or-negative",
+               "tillage-mixing-not-conservative", "tillage-run-error", "booked-in-later-substep", "applied-fertiliser-decreases", "prognosis-dressing-removes-n", "crop-n-negative", "resprouting-creates-n", "per-crop-fixation", "harvest-run-error", "harvest-pool-not-finite-or-negative",
                "harvest-removes-organic-n", "harvest-residues-exceed-crop-n", "harvest-first-entry-books-residues", "crop-n-credit", "mineral-n-below-profile")
 
 
@@ -38,7 +38,7 @@ def oracle(ctx, search):
         fails.append(Fail(key="trace-crash", what="traced run aborted", stderr=terr[-800:]))
     for l in orc + torc:
         if l.startswith(ORACLE_KEYS):
-            fails.append(Fail(key=re.sub(r"(value|before|after|naos|nfos|ums0|ums|dsumm|aufnasum-delta|sum-pe|dPESUM|dAUFNASUM|fast-before|slow-before|gain|crop-n|subd|pool-gain|crop-loss)=\S+", "", l)[:100].strip(), what=l))
+            fails.append(Fail(key=re.sub(r"(value|before|after|naos|nfos|ums0|ums|dsumm|aufnasum-delta|sum-pe|dPESUM|dAUFNASUM|fast-before|slow-before|gain|crop-n|subd|pool-gain|crop-loss|reported|fixed-since-the-previous-harvest)=\S+", "", l)[:100].strip(), what=l))
     from props import daynlib
     fails += daynlib.oracle_day(ctx, daynlib.C07_KEYS) or []
     return fails
